@@ -12,6 +12,11 @@ var CallStackSize = 256
 var MaxTableGetLoop = 100
 var MaxArrayIndex = 67108864
 
+// MaxCoroutineNesting is the number of threads that can be in a resume at the same time (a
+// coroutine that resumes a coroutine that resumes a coroutine ...), the main thread included:
+// one more resume fails with "C stack overflow" (LUAI_MAXCCALLS in luaconf.h).
+var MaxCoroutineNesting = 200
+
 type LNumber float64
 
 const LNumberBit = 64
